@@ -511,7 +511,16 @@ def run_ans(case):
             check("C18", em == (len(want) == 0), "ans/is_empty", lambda: "is_empty() = %r, export %s" % (em, hexw(want)), observation=True)
             coder.get_compressed()
             coder.pos()
-            cmp_export("C08", "ans/inspection_changed_coder", "after num_words / num_bits / num_valid_bits / is_empty / get_compressed / pos")
+            # the raw-binary view: shown if the coder happens to be in a sealed state, refused otherwise; the coder stays as it is
+            try:
+                raw = coder.get_compressed(unseal=True).tolist()
+                check("C08", raw + [1] == want, "ans/raw_binary_view", lambda: "get_compressed(unseal=True) = %s, export %s" % (hexw(raw), hexw(want)), observation=True)
+                label("ans:raw_binary_view_shown")
+            except (KeyboardInterrupt, SystemExit, MemoryError, Violation, Discard):
+                raise
+            except BaseException:  # noqa: BLE001
+                label("ans:raw_binary_view_refused")
+            cmp_export("C08", "ans/inspection_changed_coder", "after num_words / num_bits / num_valid_bits / is_empty / get_compressed / get_compressed(unseal=True) / pos")
         elif k == "snap":
             pos = coder.pos()
             check("C07", pos[0] == len(ref.out) and pos[1] == ref.x, "ans/pos_disagrees_with_reference",
